@@ -1086,6 +1086,23 @@ func (v *Verifier) loopVars(li *loopInfo, st *State, phis []*ssa.Phi, vals []Val
 			}
 		}
 	}
+	// the hidden index of an enclosing `for ... range` loop K is visible in the clauses of an inner loop as "rangeindexK"
+	for _, lo := range v.loops {
+		if lo == li || !lo.body[li.head] {
+			continue
+		}
+		for _, in := range lo.head.Instrs {
+			ph, ok := in.(*ssa.Phi)
+			if !ok {
+				break
+			}
+			if ph.Comment == "rangeindex" {
+				if val, ok := st.regs[ph]; ok {
+					vars[fmt.Sprintf("rangeindex%d", lo.ordinal)] = val
+				}
+			}
+		}
+	}
 	// Invariants written for a `for ... range` loop name its hidden index "rangeindex" (index of the last element handled). When
 	// the loop has been rewritten as a counting loop (one integer variable that starts at 0 and is incremented by 1), the same
 	// invariants keep their meaning with rangeindex = counter - 1.
